@@ -61,17 +61,40 @@ def check(ctx):
     gc = repo.cls(GM, "GaussianElectionModel")
     gf = ctx.fn(GM, "GaussianElectionModel.get_aggregate_prediction_intervals")
     gs = mb.summarize(gf, self_cls=gc)
-    gmain = [t for pc, t, n in gs.returns if t[0] == "call"]
-    ctx.require(gmain, f"{gf.where()}: main return not found")
+    def bound_value(t):
+        """per-group vector handed back as a bound -> frame-algebra value: a table column (rounded or not), or a Series group sum"""
+        while t[0] == "call" and t[1][0] == "attr" and t[1][2] in ("round", "reset_index", "copy", "astype"):
+            t = t[1][1]
+        if t[0] == "attr" and t[2] == "values":
+            t = t[1]
+        if t[0] == "sub" and t[2][0] in ("const", "fstr"):
+            return F.col(t[1], t[2])
+        if t[0] == "attr" and t[2] not in ("values", "T", "index", "columns", "iloc", "loc"):
+            return F.col(t[1], ("const", t[2]))  # attribute-style column access
+        if t[0] == "call" and t[1][0] == "attr" and t[1][2] == "sum" and t[1][1][0] == "sub":
+            g_, c_ = t[1][1][1], t[1][1][2]
+            if g_[0] == "call" and g_[1][0] == "attr" and g_[1][2] == "groupby" and c_[0] in ("const", "fstr"):
+                return ("gsum", g_[1][1], F.col(g_[1][1], c_), g_[2][0])
+        raise AnalysisError(f"returned bound {ir.show(t, maxdepth=4)} is neither a table column nor a group sum")
+
     quantities = [(bf, "counted votes", F.col(tab, res)), (bf, "prediction", F.col(tab, fname("pred_")))]
     nret = ns.ret()
     for i, side in enumerate(("lower", "upper")):
-        x = nret[2][i]
-        x = x[1][1] if x[0] == "call" else x
-        quantities.append((nf, f"nonparametric {side} bound", F.col(x[1], ("const", x[2]))))
-        y = gmain[0][2][i]
-        y = y[1][1] if y[0] == "call" else y
-        quantities.append((gf, f"gaussian {side} bound", F.col(y[1], ("const", y[2]))))
+        quantities.append((nf, f"nonparametric {side} bound", bound_value(nret[2][i])))
+    # every return of the gaussian function hands back two per-group vectors: the main one and the shortcut taken when nothing is outstanding
+    grets = [t for pc, t, n in gs.returns]
+    ctx.sites("C11.R1.gaussian-returns", len(grets), 2, "returns of the gaussian aggregate interval function (shortcut + main)")
+    for j, t_ in enumerate(grets):
+        pair = t_[2] if t_[0] == "call" else (t_[1] if t_[0] == "tuple" else None)
+        which = "main" if t_[0] == "call" and any(x[0] == "call" and x[1][0] == "attr" and x[1][2] == "round" for x in pair) else "shortcut (nothing outstanding)"
+        if pair is None or len(pair) != 2:
+            ctx.ob("C11.R1.term", f"{gf.qualname}|gaussian return {j} hands back (lower, upper)", False, gf.where(), f"return value is {ir.show(t_, maxdepth=3)}")
+            continue
+        for i, side in enumerate(("lower", "upper")):
+            try:
+                quantities.append((gf, f"gaussian {side} bound, {which}", bound_value(pair[i])))
+            except AnalysisError as e:
+                ctx.ob("C11.R1.term", f"{gf.qualname}|gaussian {side} bound, {which} includes S_U(results_e)", False, gf.where(), str(e))
     for fn, what, val in quantities:
         problems = []
         lin = am.linear(val, {CLS_FLAG: False}, problems)
